@@ -197,7 +197,32 @@ def fixed_expectation_programs():
         for k, src in v.items():
             out.append(("scenario%d:%s" % (i, k), src, ("ok", list(expected))))
     # the same grid with the variable named like a built-in global (a local or a parameter called `type` is an ordinary variable)
-    return out + resolution_grid() + [p for nm in BUILTIN_NAMES for p in resolution_grid(nm)] + deep_nesting_programs()
+    return out + resolution_grid() + [p for nm in BUILTIN_NAMES for p in resolution_grid(nm)] + deep_nesting_programs() + self_reference_programs()
+
+
+def self_reference_programs():
+    """Declarations that refer to THEMSELVES - a local function that recurses, a local class whose method names the class, a closure stored
+    in the variable it reads - declared in every kind of inner scope, handed out of it in every way, and called after the scope has
+    ended and its slots have been taken by other variables: the self-reference still reaches the declaration."""
+    decls = [
+        ("fn", 'fn countdown(n) { if n == 0 { return "done"; } return countdown(n - 1); }', "countdown", "%s(3)", "done"),
+        ("fn-mutual-with-capture", 'var depth = 2; fn countdown(n) { if n == 0 { return "done" + String.from(depth); } return countdown(n - 1); }', "countdown", "%s(3)", "done2"),
+        ("class", '#[constructor(new)] class Node { fn twin(self) { return Node.new(); } fn name(self) { return "node"; } }', "Node", "%s.new().twin().twin().name()", "node"),
+        ("closure-var", 'var f = nil; f = |n| { if n == 0 { return "done"; } return f(n - 1); };', "f", "%s(3)", "done"),
+    ]
+    scopes = [("block", "{", "}"), ("nested", "{ var pad = 0; {", "} }"), ("for", "for i in 0..1 {", "}"),
+              ("while", "var w = 0; while w < 1 { w = w + 1;", "}"), ("if", "if out.len() == 0 {", "}"), ("else", "if out.len() == 1 { } else {", "}"),
+              ("try", "try {", "} catch e { print(\"unexpected\"); }"), ("catch", "try { throw 1; } catch e {", "}")]
+    ways = [("assigned", "result = %s;", "result"), ("pushed", "out.push(%s);", "out[0]"), ("wrapped", "var d = %s; result = |a| d;", "result(0)")]
+    progs_ = []
+    for dn, decl, name, call, exp in decls:
+        for sn, op, cl in scopes:
+            for wn, esc, got in ways:
+                src = ("fn make() {\n  var out = []; var result = nil;\n  %s\n    %s\n    %s\n  %s\n"
+                       "  var label = \"reuse 1\"; var other = \"reuse 2\"; var third = [label, other];\n  print(label);\n  print(%s);\n  return %s;\n}\n"
+                       "var c = make();\nvar pad1 = \"p\"; print(%s);\n" % (op, decl, esc % name, cl, call % got, got, call % "c"))
+                progs_.append(("selfref:%s:%s:%s" % (dn, sn, wn), src, ("ok", ["reuse 1", exp, exp])))
+    return progs_
 
 
 def meets(o, exp):
